@@ -279,6 +279,7 @@ class Ctx:
 
     def violation(self, key, what, replay):
         """Property fails on the real code for a concrete input."""
+        what = what if len(what) <= 400 else what[:400] + "…"
         # keep the first occurrences per key (a frequent listed finding must not crowd out another key)
         self._vcount = getattr(self, "_vcount", {})
         self._vcount[key] = self._vcount.get(key, 0) + 1
@@ -286,6 +287,7 @@ class Ctx:
             self.violations.append({"key": key, "what": what, "replay": replay})
 
     def tie_break(self, name, what, replay):
+        what = what if len(what) <= 400 else what[:400] + "…"
         if len(self.tie_breaks) < 200:
             self.tie_breaks.append({"name": name, "what": what, "replay": replay})
 
@@ -400,6 +402,7 @@ def finish(ctx, audit, scan_hits, wall, build_log=""):
             "samples": ctx.samples,
             "input_distribution": ctx.dist,
             "correspondence_disagreements": len(ctx.tie_breaks),
+            "correspondence_disagreement_samples": [{"name": t["name"], "what": t["what"]} for t in ctx.tie_breaks[:5]],
             "known_findings_seen": known_seen,
             "explanation": ctx.explanation,
             "notes": ctx.notes,
